@@ -94,18 +94,28 @@ func runners() []runner {
 		fb := func(v fe) *pasta.PallasBaseFieldElement { return must(bf.FromBytes(beBytes(v[0], 32))) }
 		out = append(out, mkRunner(&papi[*pasta.PallasPoint]{
 			name: "pallas", model: m, gen: c.Generator, id: c.OpIdentity,
-			add:  func(a, b *pasta.PallasPoint) *pasta.PallasPoint { return a.Add(b) },
-			neg:  func(a *pasta.PallasPoint) *pasta.PallasPoint { return a.Neg() },
-			raw:  func(p *pasta.PallasPoint) []fe { return []fe{le1(p.V.X.Bytes()), le1(p.V.Y.Bytes()), le1(p.V.Z.Bytes())} },
+			add: func(a, b *pasta.PallasPoint) *pasta.PallasPoint { return a.Add(b) },
+			neg: func(a *pasta.PallasPoint) *pasta.PallasPoint { return a.Neg() },
+			raw: func(p *pasta.PallasPoint) []fe {
+				return []fe{le1(p.V.X.Bytes()), le1(p.V.Y.Bytes()), le1(p.V.Z.Bytes())}
+			},
 			comp: fmtPastac, uncomp: fmtPastau, cborInner: fmtPastac,
 			fromCompressed: c.FromCompressed, fromUncompressed: c.FromUncompressed, fromBytes: c.FromBytes,
 			toCompressed: (*pasta.PallasPoint).ToCompressed, toUncompressed: (*pasta.PallasPoint).ToUncompressed, toBytes: (*pasta.PallasPoint).Bytes,
-			unmarshalBinary: func(b []byte) (*pasta.PallasPoint, error) { var p pasta.PallasPoint; err := p.UnmarshalBinary(b); return &p, err },
-			marshalBinary:   (*pasta.PallasPoint).MarshalBinary,
-			unmarshalCBOR:   func(b []byte) (*pasta.PallasPoint, error) { var p pasta.PallasPoint; err := p.UnmarshalCBOR(b); return &p, err },
-			marshalCBOR:     (*pasta.PallasPoint).MarshalCBOR,
-			fromAffine:      func(x, y fe) (*pasta.PallasPoint, error) { return c.FromAffine(fb(x), fb(y)) },
-			fromAffineX:     func(x fe, odd bool) (*pasta.PallasPoint, error) { return c.FromAffineX(fb(x), odd) },
+			unmarshalBinary: func(b []byte) (*pasta.PallasPoint, error) {
+				var p pasta.PallasPoint
+				err := p.UnmarshalBinary(b)
+				return &p, err
+			},
+			marshalBinary: (*pasta.PallasPoint).MarshalBinary,
+			unmarshalCBOR: func(b []byte) (*pasta.PallasPoint, error) {
+				var p pasta.PallasPoint
+				err := p.UnmarshalCBOR(b)
+				return &p, err
+			},
+			marshalCBOR: (*pasta.PallasPoint).MarshalCBOR,
+			fromAffine:  func(x, y fe) (*pasta.PallasPoint, error) { return c.FromAffine(fb(x), fb(y)) },
+			fromAffineX: func(x fe, odd bool) (*pasta.PallasPoint, error) { return c.FromAffineX(fb(x), odd) },
 		}))
 	}
 	{
@@ -114,21 +124,33 @@ func runners() []runner {
 		fb := func(v fe) *pasta.VestaBaseFieldElement { return must(bf.FromBytes(beBytes(v[0], 32))) }
 		out = append(out, mkRunner(&papi[*pasta.VestaPoint]{
 			name: "vesta", model: m, gen: c.Generator, id: c.OpIdentity,
-			add:  func(a, b *pasta.VestaPoint) *pasta.VestaPoint { return a.Add(b) },
-			neg:  func(a *pasta.VestaPoint) *pasta.VestaPoint { return a.Neg() },
-			raw:  func(p *pasta.VestaPoint) []fe { return []fe{le1(p.V.X.Bytes()), le1(p.V.Y.Bytes()), le1(p.V.Z.Bytes())} },
+			add: func(a, b *pasta.VestaPoint) *pasta.VestaPoint { return a.Add(b) },
+			neg: func(a *pasta.VestaPoint) *pasta.VestaPoint { return a.Neg() },
+			raw: func(p *pasta.VestaPoint) []fe {
+				return []fe{le1(p.V.X.Bytes()), le1(p.V.Y.Bytes()), le1(p.V.Z.Bytes())}
+			},
 			comp: fmtPastac, uncomp: fmtPastau, cborInner: fmtPastac,
 			fromCompressed: c.FromCompressed, fromUncompressed: c.FromUncompressed, fromBytes: c.FromBytes,
 			toCompressed: (*pasta.VestaPoint).ToCompressed, toUncompressed: (*pasta.VestaPoint).ToUncompressed, toBytes: (*pasta.VestaPoint).Bytes,
-			unmarshalBinary: func(b []byte) (*pasta.VestaPoint, error) { var p pasta.VestaPoint; err := p.UnmarshalBinary(b); return &p, err },
-			marshalBinary:   (*pasta.VestaPoint).MarshalBinary,
-			unmarshalCBOR:   func(b []byte) (*pasta.VestaPoint, error) { var p pasta.VestaPoint; err := p.UnmarshalCBOR(b); return &p, err },
-			marshalCBOR:     (*pasta.VestaPoint).MarshalCBOR,
-			fromAffine:      func(x, y fe) (*pasta.VestaPoint, error) { return c.FromAffine(fb(x), fb(y)) },
-			fromAffineX:     func(x fe, odd bool) (*pasta.VestaPoint, error) { return c.FromAffineX(fb(x), odd) },
+			unmarshalBinary: func(b []byte) (*pasta.VestaPoint, error) {
+				var p pasta.VestaPoint
+				err := p.UnmarshalBinary(b)
+				return &p, err
+			},
+			marshalBinary: (*pasta.VestaPoint).MarshalBinary,
+			unmarshalCBOR: func(b []byte) (*pasta.VestaPoint, error) {
+				var p pasta.VestaPoint
+				err := p.UnmarshalCBOR(b)
+				return &p, err
+			},
+			marshalCBOR: (*pasta.VestaPoint).MarshalCBOR,
+			fromAffine:  func(x, y fe) (*pasta.VestaPoint, error) { return c.FromAffine(fb(x), fb(y)) },
+			fromAffineX: func(x fe, odd bool) (*pasta.VestaPoint, error) { return c.FromAffineX(fb(x), odd) },
 		}))
 	}
-	edRaw := func(x, y, z, t bytesT) []fe { return []fe{le1(x.Bytes()), le1(y.Bytes()), le1(z.Bytes()), le1(t.Bytes())} }
+	edRaw := func(x, y, z, t bytesT) []fe {
+		return []fe{le1(x.Bytes()), le1(y.Bytes()), le1(z.Bytes()), le1(t.Bytes())}
+	}
 	edfb := func(v fe) *edwards25519.BaseFieldElement {
 		return must(edwards25519.NewBaseField().FromBytes(beBytes(v[0], 32)))
 	}
@@ -143,11 +165,19 @@ func runners() []runner {
 			comp: fmtEdc, uncomp: fmtEdu, cborInner: fmtEdc,
 			fromCompressed: c.FromCompressed, fromUncompressed: c.FromUncompressed, fromBytes: c.FromBytes,
 			toCompressed: (*edwards25519.Point).ToCompressed, toUncompressed: (*edwards25519.Point).ToUncompressed, toBytes: (*edwards25519.Point).Bytes,
-			unmarshalBinary: func(b []byte) (*edwards25519.Point, error) { var p edwards25519.Point; err := p.UnmarshalBinary(b); return &p, err },
-			marshalBinary:   (*edwards25519.Point).MarshalBinary,
-			unmarshalCBOR:   func(b []byte) (*edwards25519.Point, error) { var p edwards25519.Point; err := p.UnmarshalCBOR(b); return &p, err },
-			marshalCBOR:     (*edwards25519.Point).MarshalCBOR,
-			fromAffine:      func(x, y fe) (*edwards25519.Point, error) { return c.FromAffine(edfb(x), edfb(y)) },
+			unmarshalBinary: func(b []byte) (*edwards25519.Point, error) {
+				var p edwards25519.Point
+				err := p.UnmarshalBinary(b)
+				return &p, err
+			},
+			marshalBinary: (*edwards25519.Point).MarshalBinary,
+			unmarshalCBOR: func(b []byte) (*edwards25519.Point, error) {
+				var p edwards25519.Point
+				err := p.UnmarshalCBOR(b)
+				return &p, err
+			},
+			marshalCBOR: (*edwards25519.Point).MarshalCBOR,
+			fromAffine:  func(x, y fe) (*edwards25519.Point, error) { return c.FromAffine(edfb(x), edfb(y)) },
 		}))
 	}
 	{
@@ -160,11 +190,15 @@ func runners() []runner {
 			raw:  func(p *edwards25519.PrimeSubGroupPoint) []fe { return edRaw(&p.V.X, &p.V.Y, &p.V.Z, &p.V.T) },
 			comp: fmtEdc, uncomp: fmtEdu, cborInner: fmtEdc,
 			fromCompressed: c.FromCompressed, fromUncompressed: c.FromUncompressed, fromBytes: c.FromBytes,
-			toCompressed:  (*edwards25519.PrimeSubGroupPoint).ToCompressed, toUncompressed: (*edwards25519.PrimeSubGroupPoint).ToUncompressed,
-			toBytes:       (*edwards25519.PrimeSubGroupPoint).Bytes,
-			unmarshalCBOR: func(b []byte) (*edwards25519.PrimeSubGroupPoint, error) { var p edwards25519.PrimeSubGroupPoint; err := p.UnmarshalCBOR(b); return &p, err },
-			marshalCBOR:   (*edwards25519.PrimeSubGroupPoint).MarshalCBOR,
-			fromAffine:    func(x, y fe) (*edwards25519.PrimeSubGroupPoint, error) { return c.FromAffine(edfb(x), edfb(y)) },
+			toCompressed: (*edwards25519.PrimeSubGroupPoint).ToCompressed, toUncompressed: (*edwards25519.PrimeSubGroupPoint).ToUncompressed,
+			toBytes: (*edwards25519.PrimeSubGroupPoint).Bytes,
+			unmarshalCBOR: func(b []byte) (*edwards25519.PrimeSubGroupPoint, error) {
+				var p edwards25519.PrimeSubGroupPoint
+				err := p.UnmarshalCBOR(b)
+				return &p, err
+			},
+			marshalCBOR: (*edwards25519.PrimeSubGroupPoint).MarshalCBOR,
+			fromAffine:  func(x, y fe) (*edwards25519.PrimeSubGroupPoint, error) { return c.FromAffine(edfb(x), edfb(y)) },
 		}))
 	}
 	{
@@ -178,9 +212,13 @@ func runners() []runner {
 			comp: fmtMontc, uncomp: fmtMontu, cborInner: fmtMontu,
 			fromCompressed: c.FromCompressed, fromUncompressed: c.FromUncompressed, fromBytes: c.FromBytes,
 			toCompressed: (*curve25519.Point).ToCompressed, toUncompressed: (*curve25519.Point).ToUncompressed, toBytes: (*curve25519.Point).Bytes,
-			unmarshalCBOR: func(b []byte) (*curve25519.Point, error) { var p curve25519.Point; err := p.UnmarshalCBOR(b); return &p, err },
-			marshalCBOR:   (*curve25519.Point).MarshalCBOR,
-			fromAffine:    func(x, y fe) (*curve25519.Point, error) { return c.FromAffine(edfb(x), edfb(y)) },
+			unmarshalCBOR: func(b []byte) (*curve25519.Point, error) {
+				var p curve25519.Point
+				err := p.UnmarshalCBOR(b)
+				return &p, err
+			},
+			marshalCBOR: (*curve25519.Point).MarshalCBOR,
+			fromAffine:  func(x, y fe) (*curve25519.Point, error) { return c.FromAffine(edfb(x), edfb(y)) },
 		}))
 	}
 	{
@@ -193,11 +231,15 @@ func runners() []runner {
 			raw:  func(p *curve25519.PrimeSubGroupPoint) []fe { return edRaw(&p.V.X, &p.V.Y, &p.V.Z, &p.V.T) },
 			comp: fmtMontc, uncomp: fmtMontu, cborInner: fmtMontu,
 			fromCompressed: c.FromCompressed, fromUncompressed: c.FromUncompressed, fromBytes: c.FromBytes,
-			toCompressed:  (*curve25519.PrimeSubGroupPoint).ToCompressed, toUncompressed: (*curve25519.PrimeSubGroupPoint).ToUncompressed,
-			toBytes:       (*curve25519.PrimeSubGroupPoint).Bytes,
-			unmarshalCBOR: func(b []byte) (*curve25519.PrimeSubGroupPoint, error) { var p curve25519.PrimeSubGroupPoint; err := p.UnmarshalCBOR(b); return &p, err },
-			marshalCBOR:   (*curve25519.PrimeSubGroupPoint).MarshalCBOR,
-			fromAffine:    func(x, y fe) (*curve25519.PrimeSubGroupPoint, error) { return c.FromAffine(edfb(x), edfb(y)) },
+			toCompressed: (*curve25519.PrimeSubGroupPoint).ToCompressed, toUncompressed: (*curve25519.PrimeSubGroupPoint).ToUncompressed,
+			toBytes: (*curve25519.PrimeSubGroupPoint).Bytes,
+			unmarshalCBOR: func(b []byte) (*curve25519.PrimeSubGroupPoint, error) {
+				var p curve25519.PrimeSubGroupPoint
+				err := p.UnmarshalCBOR(b)
+				return &p, err
+			},
+			marshalCBOR: (*curve25519.PrimeSubGroupPoint).MarshalCBOR,
+			fromAffine:  func(x, y fe) (*curve25519.PrimeSubGroupPoint, error) { return c.FromAffine(edfb(x), edfb(y)) },
 		}))
 	}
 	{
@@ -206,18 +248,28 @@ func runners() []runner {
 		fb := func(v fe) *bls12381.BaseFieldElementG1 { return must(bf.FromBytes(beBytes(v[0], 48))) }
 		out = append(out, mkRunner(&papi[*bls12381.PointG1]{
 			name: "bls-g1", model: m, gen: c.Generator, id: c.OpIdentity,
-			add:  func(a, b *bls12381.PointG1) *bls12381.PointG1 { return a.Add(b) },
-			neg:  func(a *bls12381.PointG1) *bls12381.PointG1 { return a.Neg() },
-			raw:  func(p *bls12381.PointG1) []fe { return []fe{le1(p.V.X.Bytes()), le1(p.V.Y.Bytes()), le1(p.V.Z.Bytes())} },
+			add: func(a, b *bls12381.PointG1) *bls12381.PointG1 { return a.Add(b) },
+			neg: func(a *bls12381.PointG1) *bls12381.PointG1 { return a.Neg() },
+			raw: func(p *bls12381.PointG1) []fe {
+				return []fe{le1(p.V.X.Bytes()), le1(p.V.Y.Bytes()), le1(p.V.Z.Bytes())}
+			},
 			comp: fmtBlsc, uncomp: fmtBlsu, cborInner: fmtBlsc,
 			fromCompressed: c.FromCompressed, fromUncompressed: c.FromUncompressed, fromBytes: c.FromBytes,
 			toCompressed: (*bls12381.PointG1).ToCompressed, toUncompressed: (*bls12381.PointG1).ToUncompressed, toBytes: (*bls12381.PointG1).Bytes,
-			unmarshalBinary: func(b []byte) (*bls12381.PointG1, error) { var p bls12381.PointG1; err := p.UnmarshalBinary(b); return &p, err },
-			marshalBinary:   (*bls12381.PointG1).MarshalBinary,
-			unmarshalCBOR:   func(b []byte) (*bls12381.PointG1, error) { var p bls12381.PointG1; err := p.UnmarshalCBOR(b); return &p, err },
-			marshalCBOR:     (*bls12381.PointG1).MarshalCBOR,
-			fromAffine:      func(x, y fe) (*bls12381.PointG1, error) { return c.FromAffine(fb(x), fb(y)) },
-			fromAffineX:     func(x fe, odd bool) (*bls12381.PointG1, error) { return c.FromAffineX(fb(x), odd) },
+			unmarshalBinary: func(b []byte) (*bls12381.PointG1, error) {
+				var p bls12381.PointG1
+				err := p.UnmarshalBinary(b)
+				return &p, err
+			},
+			marshalBinary: (*bls12381.PointG1).MarshalBinary,
+			unmarshalCBOR: func(b []byte) (*bls12381.PointG1, error) {
+				var p bls12381.PointG1
+				err := p.UnmarshalCBOR(b)
+				return &p, err
+			},
+			marshalCBOR: (*bls12381.PointG1).MarshalCBOR,
+			fromAffine:  func(x, y fe) (*bls12381.PointG1, error) { return c.FromAffine(fb(x), fb(y)) },
+			fromAffineX: func(x fe, odd bool) (*bls12381.PointG1, error) { return c.FromAffineX(fb(x), odd) },
 		}))
 	}
 	{
@@ -232,18 +284,26 @@ func runners() []runner {
 		out = append(out, mkRunner(&papi[*bls12381.PointG2]{
 			name: "bls-g2", model: m, gen: c.Generator, id: c.OpIdentity,
 			add: func(a, b *bls12381.PointG2) *bls12381.PointG2 { return a.Add(b) },
-			neg:  func(a *bls12381.PointG2) *bls12381.PointG2 { return a.Neg() },
+			neg: func(a *bls12381.PointG2) *bls12381.PointG2 { return a.Neg() },
 			raw: func(p *bls12381.PointG2) []fe {
 				return []fe{f2raw(&p.V.X.U0, &p.V.X.U1), f2raw(&p.V.Y.U0, &p.V.Y.U1), f2raw(&p.V.Z.U0, &p.V.Z.U1)}
 			},
 			comp: fmtBlsc, uncomp: fmtBlsu, cborInner: fmtBlsc,
 			fromCompressed: c.FromCompressed, fromUncompressed: c.FromUncompressed, fromBytes: c.FromBytes,
 			toCompressed: (*bls12381.PointG2).ToCompressed, toUncompressed: (*bls12381.PointG2).ToUncompressed, toBytes: (*bls12381.PointG2).Bytes,
-			unmarshalBinary: func(b []byte) (*bls12381.PointG2, error) { var p bls12381.PointG2; err := p.UnmarshalBinary(b); return &p, err },
-			marshalBinary:   (*bls12381.PointG2).MarshalBinary,
-			unmarshalCBOR:   func(b []byte) (*bls12381.PointG2, error) { var p bls12381.PointG2; err := p.UnmarshalCBOR(b); return &p, err },
-			marshalCBOR:     (*bls12381.PointG2).MarshalCBOR,
-			fromAffine:      func(x, y fe) (*bls12381.PointG2, error) { return c.FromAffine(fb(x), fb(y)) },
+			unmarshalBinary: func(b []byte) (*bls12381.PointG2, error) {
+				var p bls12381.PointG2
+				err := p.UnmarshalBinary(b)
+				return &p, err
+			},
+			marshalBinary: (*bls12381.PointG2).MarshalBinary,
+			unmarshalCBOR: func(b []byte) (*bls12381.PointG2, error) {
+				var p bls12381.PointG2
+				err := p.UnmarshalCBOR(b)
+				return &p, err
+			},
+			marshalCBOR: (*bls12381.PointG2).MarshalCBOR,
+			fromAffine:  func(x, y fe) (*bls12381.PointG2, error) { return c.FromAffine(fb(x), fb(y)) },
 		}))
 	}
 	return out
